@@ -748,7 +748,22 @@ pub(crate) fn read_filter_block(
 	if location.size() == 0 {
 		return Err(Error::FilterBlockEmpty);
 	}
-	let buf = read_bytes(src, location)?;
+	let buf = read_bytes(Arc::clone(&src), location)?;
+	// The filter block is written through write_block_at_offset like every other block:
+	// verify its trailer (compression type + masked crc) before the bytes are interpreted.
+	let trailer = read_bytes(
+		src,
+		&BlockHandle::new(location.offset() + location.size(), BLOCK_COMPRESS_LEN + BLOCK_CKSUM_LEN),
+	)?;
+	if !verify_table_block(
+		&buf,
+		trailer[0],
+		unmask(u32::decode_fixed(&trailer[BLOCK_COMPRESS_LEN..]).unwrap()),
+	) {
+		return Err(Error::from(SSTableError::ChecksumVerificationFailed {
+			block_offset: location.offset() as u64,
+		}));
+	}
 	Ok(FilterBlockReader::new(buf, policy))
 }
 
